@@ -426,7 +426,7 @@ def _r4(repo, L):
     for f in repo.functions.values():
         if f.module.name in ("tola.assembly.build_assembly", "tola.assembly.build_utils", "tola.assembly.overlap_result", "tola.assembly.indexed_assembly", "tola.assembly.scaffold", "tola.assembly.assembly"):
             for c in repo.calls_in(f):
-                if dotted(c.func) == "Fragment":
+                if dotted(c.func) == "Fragment" and f.qualname in _remap_reach(repo):
                     sites.append(f)
     names = sorted({f.short for f in sites})
     L.check(names == ["OverlapResult.trim_fragment"], "R4", "Fragment()-sites", "remapping constructs fragments only in the cut", f"fragments are constructed in {names}: output fragment count no longer equals input contigs + cuts", "src/tola/assembly")
@@ -507,3 +507,17 @@ def _r5(repo, L):
         if not nonempty:
             ok3, why3 = False, "a build scaffold is registered before (or without) the test that it still has rows: a haplotig result emptied by the overhang resolution becomes a rowless H_n scaffold that is counted as a haplotig removal although nothing is written for it"
     L.check(ok3, "R5", f.short + ":non-empty", "only scaffolds that still have rows are registered and counted", why3, f.loc(call))
+
+
+_REMAP_REACH = {}
+
+
+def _remap_reach(repo):
+    """functions the remapping (BuildAssembly.remap_to_input_assembly and the fusing / splitting that follows it) can reach"""
+    k = id(repo)
+    if k not in _REMAP_REACH:
+        ba = repo.cls("BuildAssembly")
+        roots = [m for nm, m in ba.methods.items() if nm in ("remap_to_input_assembly", "assemblies_with_scaffolds_fused", "scaffolds_fused_by_name")]
+        _REMAP_REACH.clear()
+        _REMAP_REACH[k] = set(repo.reachable_from(roots))
+    return _REMAP_REACH[k]
